@@ -94,10 +94,14 @@ def handleNode (c : Case) : Verdict :=
     let implM : Marshal := match rimpl.getD 1 "" with
       | "ok" => .ok (implBytes.getD []) | "panic" => .panic | _ => .err
     if implM == .panic then .specfalse "C41:node:marshal-panics" "json.Marshal(node)-panicked" else
-    if some (wrapNode o inp) != nj then
-      .differ "wrap" s!"model-nodeJSON-differs-from-replica-in-{diffField (wrapNode o inp) (nj.getD inp)}"
-    else if mm != implM then .differ "marshal" s!"model={repr mm} impl={repr implM}"
-    else
+    -- model/implementation differences in the encoding step are reported only if the property
+    -- itself holds on the implementation's output (a spec violation takes precedence)
+    let pre : Option Verdict :=
+      if some (wrapNode o inp) != nj then
+        some (.differ "wrap" s!"model-nodeJSON-differs-from-replica-in-{diffField (wrapNode o inp) (nj.getD inp)}")
+      else if mm != implM then some (.differ "marshal" s!"model={repr mm} impl={repr implM}")
+      else none
+    let post : Verdict :=
       match implBytes with
       | none => .agree false ["node", "marshal-error"]
       | some bytes =>
@@ -142,6 +146,10 @@ def handleNode (c : Case) : Verdict :=
             let expectT := decImpl.map fun d => (d.mtime, d.atime, d.ctime) == (fixTime inp.mtime, fixTime inp.atime, fixTime inp.ctime)
             if genericOK && expectT == some false then .differ "fixTime" "decoded-times≠fixTime(input)"
             else .agree false (["node"] ++ (if !timesOK then ["year-out-of-range"] else []) ++ (if !genericOK then ["generic-noncanonical"] else []))
+    match post, pre with
+    | .specfalse sig d, _ => .specfalse sig d
+    | _, some d => d
+    | v, none => v
   | _, _ => .differ "protocol" "node-case-without-in/impl"
 
 def handleTree (c : Case) : Verdict :=
